@@ -106,6 +106,15 @@ def programs(tier: str):
                 p = _prog(combo, ending, 0, False)
                 p["batch"] = 2
                 yield p
+    # the external cancellation injected between two loop iterations (not only at quiescence)
+    for k in (0, 1, 2):
+        for combo in itertools.combinations_with_replacement(range(len(SPAWNS)), k):
+            for d in (0, 1, 2):
+                if d and k == 2:
+                    continue
+                p = _prog(combo, "return", 1, False, d)
+                p["fine"] = True
+                yield p
     extra_k = kmax + 1
     pool = [0, 1, 3, 4, 5] if tier == "quick" else [1, 2, 4, 5]
     for combo in itertools.combinations_with_replacement(pool, extra_k):
@@ -372,7 +381,7 @@ def execute(program, ch: Chooser) -> Result:  # noqa: C901, PLR0912
         return _self_cancel(program, ch)
     if program.get("detached"):
         return _detached(program, ch)
-    r = Run(program, ch, cancels=program["cancels"], batch=program.get("batch", 1))
+    r = Run(program, ch, cancels=program["cancels"], batch=program.get("batch", 1), fine=program.get("fine", False))
     viols: list[dict] = []
     waited: list = []
 
